@@ -19,6 +19,12 @@
 //	                          of its "enter") from P1 with the answer cpu1 >= threshold; wait until
 //	                          it has returned or is parked at P2
 //	["finish", tid]           release thread tid from P2; wait until it has returned
+//	["hold"]                  the main goroutine takes the shedder's avgFlyingLock (what a goroutine
+//	                          preempted inside highThru / addFlying does).  Until "release" only
+//	                          "pass" / "fail" may follow: each runs on its own goroutine; the main
+//	                          goroutine waits until the in-flight counter shows that the resolution is
+//	                          past its atomic decrement (it then spins on the lock)
+//	["release"]               give the lock back; wait until every started resolution has returned
 //
 // "pass" / "fail" name the index of the "allow" or of the "decide" that produced the promise.
 package load
@@ -28,6 +34,7 @@ import (
 	"encoding/json"
 	"fmt"
 	"os"
+	"runtime"
 	"sync/atomic"
 	"testing"
 	"time"
@@ -133,8 +140,25 @@ func c02RunConc(c c02ConcCase) (obs []c02ConcObs, ws [2]int64, stable bool, errs
 		c02Running.Store(nil)
 	}()
 	proms := map[int]Promise{}
+	held := false
+	var resolving []chan struct{}
+	defer func() {
+		if held {
+			as.avgFlyingLock.Unlock()
+		}
+		for _, d := range resolving {
+			select {
+			case <-d:
+			case <-time.After(c02Wait):
+			}
+		}
+	}()
 	snap := func(o *c02ConcObs) {
 		o.Fl = atomic.LoadInt64(&as.flying)
+		if held {
+			o.Am, o.Ae = c02Dyadic(as.avgFlying) // the lock is ours
+			return
+		}
 		as.avgFlyingLock.Lock()
 		avg := as.avgFlying
 		as.avgFlyingLock.Unlock()
@@ -149,6 +173,9 @@ func c02RunConc(c c02ConcCase) (obs []c02ConcObs, ws [2]int64, stable bool, errs
 		var o c02ConcObs
 		kind, _ := op[0].(string)
 		o.K = kind
+		if held && kind != "pass" && kind != "fail" && kind != "release" && kind != "hold" {
+			return nil, ws, true, fmt.Sprintf("op %d: %s while the lock is held", i, kind)
+		}
 		switch kind {
 		case "allow":
 			timex.SetFakeNow(time.Duration(c02Int(op[1])))
@@ -175,7 +202,30 @@ func c02RunConc(c c02ConcCase) (obs []c02ConcObs, ws [2]int64, stable bool, errs
 					}
 				}
 			}
-			if p != nil {
+			if p != nil && held {
+				if kind == "pass" {
+					timex.SetFakeNow(time.Duration(c02Int(op[2])))
+				}
+				want := atomic.LoadInt64(&as.flying) - 1
+				done := make(chan struct{})
+				resolving = append(resolving, done)
+				go func(pass bool) {
+					defer close(done)
+					if pass {
+						p.Pass()
+					} else {
+						p.Fail()
+					}
+				}(kind == "pass")
+				deadline := time.Now().Add(c02Wait)
+				for atomic.LoadInt64(&as.flying) != want {
+					if time.Now().After(deadline) {
+						return nil, ws, true, fmt.Sprintf("op %d: resolution did not decrement the in-flight count", i)
+					}
+					runtime.Gosched()
+				}
+				o.Done = true
+			} else if p != nil {
 				if kind == "pass" {
 					timex.SetFakeNow(time.Duration(c02Int(op[2])))
 					p.Pass()
@@ -184,6 +234,30 @@ func c02RunConc(c c02ConcCase) (obs []c02ConcObs, ws [2]int64, stable bool, errs
 				}
 				o.Done = true
 			}
+		case "hold":
+			if !held {
+				as.avgFlyingLock.Lock()
+				held = true
+			}
+			o.Ok = true
+		case "release":
+			if held {
+				// give the resolutions a moment to show what they do while the lock is taken
+				for k := 0; k < 50; k++ {
+					runtime.Gosched()
+				}
+				as.avgFlyingLock.Unlock()
+				held = false
+			}
+			for _, d := range resolving {
+				select {
+				case <-d:
+				case <-time.After(c02Wait):
+					return nil, ws, true, fmt.Sprintf("op %d: a resolution did not return after the lock was released", i)
+				}
+			}
+			resolving = nil
+			o.Ok = true
 		case "enter":
 			t := &c02Thr{entered: make(chan struct{}), parked: make(chan struct{}), returned: make(chan struct{}),
 				gate: make(chan bool), logGate: make(chan struct{})}
